@@ -9,6 +9,7 @@
 #include <tinyformat.h>
 #include <util/log.h>
 #include <util/threadnames.h>
+#include <util/verif_hooks.h>
 
 #include <algorithm>
 #include <iterator>
@@ -126,6 +127,7 @@ private:
                 // Check whether we need to do work at all
                 do_work = !m_result.has_value();
             }
+            VERIF_POINT("checkqueue.batch_taken");
             // execute work
             if (do_work) {
                 for (T& check : vChecks) {
@@ -134,6 +136,7 @@ private:
                 }
             }
             vChecks.clear();
+            VERIF_POINT("checkqueue.batch_done");
         } while (true);
     }
 
